@@ -72,6 +72,8 @@ structure Req where
   bodyLeft : Nat                 -- request body bytes not yet read by the handler
   expecter : Bool := false       -- req.Body is an expectContinueReader
   wroteContinue : Bool := false  -- … that already sent `100 Continue`
+  graceful : Bool := false       -- server.CheckGracefulShutdown() when the header is (logically) written
+  touchesHeader : Bool := false  -- the handler calls Header() even if it sets nothing (sendResponse: CopyHeader(rw.Header(), …))
   deriving Repr, DecidableEq
 
 def Req.wants10KA (r : Req) : Bool := !r.proto11 && hasToken r.conn "keep-alive"
@@ -102,6 +104,7 @@ structure HIn where
   closeIn : Bool                 -- w.closeAfterReply on entry
   handlerDone : Bool
   pLen : Nat                     -- len(p)
+  owned : Bool := true           -- cw.header != nil (else `header` is the live handlerHeader and nothing of it is written)
   deriving Repr
 
 structure HOut where
@@ -166,10 +169,10 @@ def decideHeader (i : HIn) : HOut :=
   let setTE := if chunking then "chunked" else ""
   let h5 := if chunking then h4.del "Content-Length" else h4
   -- Connection: close announcement
-  let ann := close6 && !hasToken (h5.get "Connection") "close"
+  let ann := close6 && !(i.owned && hasToken (h5.get "Connection") "close")   -- cw.header.GetDirect: nil map when not owned
   let h6 := if ann then h5.del "Connection" else h5
   let setConn3 := if ann && i.rq.proto11 then "close" else setConn2
-  { lines := h6.lines ++ extraLines setDate setCL setCT setConn3 setTE
+  { lines := (if i.owned then h6.lines else []) ++ extraLines setDate setCL setCT setConn3 setTE
     chunking := chunking
     close := close6
     contentLength := cl1
@@ -212,14 +215,16 @@ def parseCL (s : String) : Option Nat :=                 -- strconv.ParseInt(cl,
 /-- response.WriteHeader -/
 def doWriteHeader (s : St) (code : Nat) : St :=
   if s.wroteHeader then s else
-  let cwh := if s.calledHeader && s.cwHeader.isNone then some s.handlerHeader else s.cwHeader
-  let cl := s.handlerHeader.get "Content-Length"
+  -- graceful shutdown: HTTP/1.1 clients are told that the connection will be closed
+  let hh := if s.rq.graceful && s.rq.proto11 then s.handlerHeader.set "Connection" "close" else s.handlerHeader
+  let cwh := if s.calledHeader && s.cwHeader.isNone then some hh else s.cwHeader
+  let cl := hh.get "Content-Length"
   let pcl := parseCL cl
   { s with
     wroteHeader := true, status := code, cwHeader := cwh
     contentLength := if cl != "" then (match pcl with | some v => some v | none => s.contentLength) else s.contentLength
     -- an invalid Content-Length is deleted from handlerHeader only AFTER the clone above
-    handlerHeader := if cl != "" && pcl.isNone then s.handlerHeader.del "Content-Length" else s.handlerHeader }
+    handlerHeader := if cl != "" && pcl.isNone then hh.del "Content-Length" else hh }
 
 /-- response.Header() followed by a mutation `f` of the returned map. -/
 def doHeaderOp (s : St) (f : Hdr → Hdr) : St :=
@@ -232,7 +237,8 @@ def doHeaderOp (s : St) (f : Hdr → Hdr) : St :=
 def applyHeader (s : St) (pLen : Nat) : St :=
   if s.cwWrote then s else
   let o := decideHeader { rq := { s.rq with bodyLeft := s.bodyLeft }, ka := s.ka, status := s.status,
-                          header := s.cwHeader.getD [], contentLength := s.contentLength,
+                          header := (match s.cwHeader with | some h => h | none => s.handlerHeader),
+                          owned := s.cwHeader.isSome, contentLength := s.contentLength,
                           closeIn := s.close, handlerDone := s.handlerDone, pLen := pLen }
   { s with cwWrote := true, chunking := o.chunking, close := o.close, contentLength := o.contentLength,
            limitHit := s.limitHit || o.limitHit, bodyLeft := o.bodyLeft,
@@ -298,7 +304,7 @@ def finish (s : St) : St :=
   | none => s
 
 def respond (rq : Req) (ka : Bool) (script : List Act) : St :=
-  finish (script.foldl step { rq := rq, ka := ka, bodyLeft := rq.bodyLeft })
+  finish (script.foldl step { rq := rq, ka := ka, bodyLeft := rq.bodyLeft, calledHeader := rq.touchesHeader })
 
 /-! ## Rendering to bytes -/
 
